@@ -31,7 +31,7 @@ def first_satisfied(seq, req, members=None):
 class C03(Spec):
     PROP = 'C03'
     MODEL = 'queue'
-    PROOF_MODULES = ['PsiProofs.C03', 'PsiProofs.C04']
+    PROOF_MODULES = ['PsiProofs.C03', 'PsiProofs.C03Pause', 'PsiProofs.C04', 'PsiProofs.C04Append']
     DESIGN_REF = 'DESIGN.md §6 C03'
     TRUST = [
         'modelled, not verified: list.remove/insert/slicing semantics; np.random.randint and RandomState.shuffle are '
